@@ -979,3 +979,150 @@ Proof.
   - intros; eapply tinv_exit; eauto.
   - intros; eapply tinv_skip; eauto.
 Qed.
+
+(* ------------------------------------------------------------------ *)
+(* 4. the trace theorems in explicit form                               *)
+(* ------------------------------------------------------------------ *)
+Definition is_start_of (h : nat) (e : event) : Prop :=
+  match e with
+  | EOp (OStart h' _) _ => h' = h
+  | EOp (OStartOneshot h' _) _ => h' = h
+  | _ => False
+  end.
+
+Definition is_api_on (h : nat) (e : event) : Prop :=
+  match e with
+  | EOp (OStart h' _) _ => h' = h
+  | EOp (OStartOneshot h' _) _ => h' = h
+  | EOp (OStop h') _ => h' = h
+  | EOp (OClose h') _ => h' = h
+  | _ => False
+  end.
+
+Lemma nas_ok_app t2 t : nas_ok (t2 ++ t) = true -> nas_ok t = true.
+Proof.
+  induction t2; simpl; auto. rewrite andb_true_iff. intros [H _]; auto.
+Qed.
+
+Lemma one_ok_app t2 t : one_ok (t2 ++ t) = true -> one_ok t = true.
+Proof.
+  induction t2; simpl; auto. rewrite andb_true_iff. intros [H _]; auto.
+Qed.
+
+Lemma mode_step_idle e h : ~ is_start_of h e -> mode_step e h MIdle = MIdle.
+Proof.
+  destruct e as [o r|o|h' sg|h'|h'|l|l|d a]; simpl; auto.
+  - destruct o; simpl; auto.
+    + intros N. destruct (Nat.eqb_spec h0 h); auto. congruence.
+    + intros N. destruct (Nat.eqb_spec h0 h); auto. congruence.
+    + destruct (h0 =? h); auto.
+    + destruct (h0 =? h); auto.
+  - destruct (h' =? h); auto.
+  - destruct (h' =? h); auto.
+  - destruct (nth h a true); auto.
+Qed.
+
+Lemma mode_idle_persist t1 t h :
+  mode_of t h = MIdle -> (forall e, In e t1 -> ~ is_start_of h e) -> mode_of (t1 ++ t) h = MIdle.
+Proof.
+  intros Hm. induction t1 as [|e t1 IH]; intros Hn; simpl; auto.
+  rewrite IH by (intros; apply Hn; simpl; auto). apply mode_step_idle. apply Hn; simpl; auto.
+Qed.
+
+Theorem none_after_stop fx beh fuel c ops t2 t1 t0 h sig o r :
+  tr (run fx beh fuel (init c) ops) = t2 ++ ECb h sig :: t1 ++ EOp o r :: t0 ->
+  o = OStop h \/ o = OClose h ->
+  (forall e, In e t1 -> ~ is_start_of h e) ->
+  False.
+Proof.
+  intros Ht Ho Hn.
+  pose proof (t_nas _ _ (tinv_run fx beh fuel c ops)) as N. rewrite Ht in N.
+  apply nas_ok_app in N. simpl in N. apply andb_true_iff in N. destruct N as [_ N].
+  rewrite mode_idle_persist in N; auto; try discriminate.
+  simpl. destruct Ho; subst o; simpl; rewrite Nat.eqb_refl; reflexivity.
+Qed.
+
+(* a callback is only ever made for the signal the handle is watching *)
+Theorem callback_matches_watch fx beh fuel c ops t2 t0 h sig :
+  tr (run fx beh fuel (init c) ops) = t2 ++ ECb h sig :: t0 ->
+  cb_allowed (mode_of t0 h) sig = true.
+Proof.
+  intros Ht.
+  pose proof (t_nas _ _ (tinv_run fx beh fuel c ops)) as N. rewrite Ht in N.
+  apply nas_ok_app in N. simpl in N. apply andb_true_iff in N. apply N.
+Qed.
+
+Fixpoint count_cb (h : nat) (t : list event) : nat :=
+  match t with
+  | [] => 0
+  | ECb h' _ :: t' => (if h' =? h then 1 else 0) + count_cb h t'
+  | _ :: t' => count_cb h t'
+  end.
+
+Lemma oneshot_session_count seg : forall t h sig,
+  nas_ok (seg ++ t) = true -> one_ok (seg ++ t) = true ->
+  mode_of t h = MOne sig false ->
+  (forall e, In e seg -> ~ is_api_on h e) ->
+  (mode_of (seg ++ t) h = MOne sig false /\ count_cb h seg = 0) \/
+  (mode_of (seg ++ t) h = MOne sig true /\ count_cb h seg = 1) \/
+  (mode_of (seg ++ t) h = MIdle /\ count_cb h seg <= 1).
+Proof.
+  induction seg as [|e seg IH]; intros t h sig N O Hm Hn.
+  - left. auto.
+  - simpl in N, O. apply andb_true_iff in N. apply andb_true_iff in O.
+    destruct N as [N Ne], O as [O Oe].
+    specialize (IH t h sig N O Hm (fun e' H => Hn e' (or_intror H))).
+    assert (He : ~ is_api_on h e) by (apply Hn; simpl; auto).
+    cbn [app mode_of].
+    destruct e as [o r|o|h' sg|h'|h'|l|l|d a]; cbn [mode_step count_cb]; auto.
+    + destruct o; simpl in He; cbn [mode_step]; auto.
+      * destruct (Nat.eqb_spec h0 h); [contradiction|auto].
+      * destruct (Nat.eqb_spec h0 h); [contradiction|auto].
+      * destruct (Nat.eqb_spec h0 h); [contradiction|auto].
+      * destruct (Nat.eqb_spec h0 h); [contradiction|auto].
+    + destruct (Nat.eqb_spec h' h) as [->|]; [|simpl; auto].
+      destruct IH as [[E C]|[[E C]|[E C]]]; rewrite E in *; simpl in *.
+      * right; left. split; auto; lia.
+      * discriminate Oe.
+      * discriminate Ne.
+    + destruct (Nat.eqb_spec h' h) as [->|]; auto.
+      destruct IH as [[E C]|[[E C]|[E C]]]; rewrite E; right; right; split; auto; lia.
+    + destruct (nth h a true); auto.
+      destruct IH as [[E C]|[[E C]|[E C]]]; right; right; split; auto; lia.
+Qed.
+
+Theorem oneshot_at_most_one fx beh fuel c ops seg t0 h sig :
+  tr (run fx beh fuel (init c) ops) = seg ++ EOp (OStartOneshot h sig) 0%Z :: t0 ->
+  sig <> 0 -> mode_of t0 h = MIdle ->
+  (forall e, In e seg -> ~ is_api_on h e) ->
+  count_cb h seg <= 1.
+Proof.
+  intros Ht Hs Hm Hn.
+  pose proof (tinv_run fx beh fuel c ops) as T.
+  pose proof (t_nas _ _ T) as N. pose proof (t_one _ _ T) as O. rewrite Ht in N, O.
+  destruct (oneshot_session_count seg (EOp (OStartOneshot h sig) 0%Z :: t0) h sig N O) as [[_ C]|[[_ C]|[_ C]]]; auto; try lia.
+  simpl. rewrite Nat.eqb_refl, Hm. unfold mode_start.
+  destruct (Nat.eqb_spec sig 0); [congruence|]. reflexivity.
+Qed.
+
+Theorem idle_means_stopped fx beh fuel c ops h :
+  let s := run fx beh fuel (init c) ops in
+  mode_of (tr s) h = MIdle -> h_signum (get s h) = 0 /\ h_active (get s h) = false.
+Proof.
+  cbv zeta. intros Hm. pose proof (tinv_run fx beh fuel c ops) as T.
+  pose proof (t_link _ _ T h) as L. rewrite Hm in L. simpl in L.
+  split; auto. rewrite (t_act _ _ T h), L. reflexivity.
+Qed.
+
+(* ... and is then stopped: once the callback of a one-shot session has returned the
+   handle is stopped (until the program starts it again) *)
+Theorem oneshot_then_stopped fx beh fuel c ops seg t0 h sg k :
+  let s := run fx beh fuel (init c) ops in
+  tr s = seg ++ ECbEnd h :: t0 ->
+  mode_of t0 h = MOne sg k ->
+  (forall e, In e seg -> ~ is_start_of h e) ->
+  h_signum (get s h) = 0 /\ h_active (get s h) = false.
+Proof.
+  cbv zeta. intros Ht Hm Hn. apply idle_means_stopped. rewrite Ht.
+  apply mode_idle_persist; auto. simpl. rewrite Nat.eqb_refl, Hm. reflexivity.
+Qed.
